@@ -60,7 +60,10 @@ MISETS = {"all": MI_ALL, "q2": MI_Q2, "t6": MI_T6}
 
 LADDER_Q = [7, 8, 9, 15, 16, 17, 31, 32, 33, 63, 64, 65, 100, 127, 128, 129, 255, 256, 257, 500, 501, 511, 512, 513,
             1000, 1001, 1023, 1024, 1025]
+# dense range: every size (a defect may sit at one particular size, e.g. exactly 73 members)
+LADDER_Q = sorted(set(LADDER_Q) | set(range(7, 131)))
 LADDER_T = LADDER_Q + [2047, 2048, 2049, 4095, 4096, 4097, 10001]
+LADDER_T = sorted(set(LADDER_T) | set(range(7, 301)))
 LADDER_ORDERS = [1, 2, 5, 10]
 LADDER_EXACT_MAX = 4097          # beyond: 50-digit mpmath recursion
 LADDER_SERIES = ["dy", "int", "fine"]
